@@ -217,3 +217,74 @@ def reused_label_buffers(rep, rng, tier, key="measures:buffer"):
                               dict(function="normalize", array=A.tolist(), filling=rd + 1), key=key)
     rep.corr["measures_on_reused_buffers"] = dict(cases=runs)
     return nviol
+
+
+def knn_call_sequences(rep, rng, tier, key="knn_rule:sequence"):
+    """Public-method sequences on ONE fitted KNN-type object: predict before and after propagate_labels (unsupervised),
+    predict / fit again on other data / predict (both kinds). After every step the answers must be those of a twin object
+    driven straight to that state (same training, propagate_labels or not, one predict)."""
+    from opfython.models.knn_supervised import KNNSupervisedOPF
+    from opfython.models.unsupervised import UnsupervisedOPF
+    nviol, runs = 0, 0
+
+    def ans(p):
+        return [list(map(int, q)) for q in p] if isinstance(p, tuple) else list(map(int, p))
+
+    def blobs(n, dim, labs):
+        cen = [[rng.uniform(-6, 6) for _ in range(dim)] for _ in labs]
+        Y = np.array([labs[j % len(labs)] for j in range(n)])
+        X = np.array([[cen[j % len(labs)][t] + rng.gauss(0, 0.8) for t in range(dim)] for j in range(n)])
+        return X, Y
+    for rd in range(8 if tier == "quick" else 200):
+        dim = rng.randint(1, 3)
+        labs = rng.choice([[3, 5, 8], [1, 2], [0, 4], [2, 7, 9, 11]])
+        n = rng.randint(10, 18)
+        X, Y = blobs(n, dim, labs)
+        X2, Y2 = blobs(n, dim, labs)
+        Q = np.array([[rng.uniform(-7, 7) for _ in range(dim)] for _ in range(5)] + [list(X[0]), list(X[n // 2])])
+        kmax = rng.randint(1, 4)
+        try:
+            # --- unsupervised: fit, predict, propagate_labels, predict
+            a = UnsupervisedOPF(min_k=1, max_k=kmax, distance="euclidean"); a.fit(X.copy(), Y.copy())
+            p_before = ans(a.predict(Q.copy()))
+            a.propagate_labels()
+            p_after = ans(a.predict(Q.copy()))
+            t1 = UnsupervisedOPF(min_k=1, max_k=kmax, distance="euclidean"); t1.fit(X.copy(), Y.copy())
+            w_before = ans(t1.predict(Q.copy()))
+            t2 = UnsupervisedOPF(min_k=1, max_k=kmax, distance="euclidean"); t2.fit(X.copy(), Y.copy()); t2.propagate_labels()
+            w_after = ans(t2.predict(Q.copy()))
+            # --- the same object trained again on other data
+            a.fit(X2.copy(), Y2.copy()); a.propagate_labels()
+            p_refit = ans(a.predict(Q.copy()))
+            t3 = UnsupervisedOPF(min_k=1, max_k=kmax, distance="euclidean"); t3.fit(X2.copy(), Y2.copy()); t3.propagate_labels()
+            w_refit = ans(t3.predict(Q.copy()))
+        except Exception:   # noqa
+            continue
+        runs += 1
+        rep.count_case(("knn-seq", X.tobytes(), Q.tobytes(), kmax), True)
+        for what, got, want in (("predict after fit", p_before, w_before), ("predict after fit, predict, propagate_labels", p_after, w_after),
+                                ("predict after the object was trained again on other data", p_refit, w_refit)):
+            if got != want:
+                nviol += 1
+                if nviol <= 2:
+                    rep.violation("UnsupervisedOPF, %s: (labels, clusters) %r, a twin object driven straight to that state gives %r" % (what, got, want),
+                                  dict(model="unsup", max_k=kmax, X=X.tolist(), Y=Y.tolist(), X_second_training=X2.tolist(), Y_second_training=Y2.tolist(), queries=Q.tolist(), step=what), key=key)
+                break
+        try:
+            Xv, Yv = blobs(6, dim, labs)
+            b = KNNSupervisedOPF(max_k=kmax, distance="euclidean"); b.fit(X.copy(), Y.copy(), Xv.copy(), Yv.copy())
+            q1 = ans(b.predict(Q.copy())); q1b = ans(b.predict(Q[::-1].copy()))[::-1]
+            b.fit(X2.copy(), Y2.copy(), Xv.copy(), Yv.copy())
+            q2 = ans(b.predict(Q.copy()))
+            u = KNNSupervisedOPF(max_k=kmax, distance="euclidean"); u.fit(X2.copy(), Y2.copy(), Xv.copy(), Yv.copy())
+            w2 = ans(u.predict(Q.copy()))
+        except Exception:   # noqa
+            continue
+        runs += 1
+        if q1 != q1b or q2 != w2:
+            nviol += 1
+            if nviol <= 2:
+                rep.violation("KNNSupervisedOPF on one object: predict %r, reversed batch %r; after training again on other data %r, a fresh object trained on that data %r" % (q1, q1b, q2, w2),
+                              dict(model="knn", max_k=kmax, X=X.tolist(), Y=Y.tolist(), X_second_training=X2.tolist(), Y_second_training=Y2.tolist(), queries=Q.tolist()), key=key)
+    rep.corr["knn_call_sequences"] = dict(cases=runs)
+    return nviol
